@@ -26,15 +26,16 @@ VARIABLES l,      \* next line of the trace
           st      \* verdict statistics
 vars == <<l, env, hist, prog, prev, st>>
 
-NReg == 16
+NReg == 24
 MaxListed == 40
 NoPrev == [op |-> "none"]
+NoProg == [prog |-> ""]
 
 St0 == [calls |-> 0, relevant |-> 0, ok |-> 0, nviol |-> 0, viol |-> <<>>, nknown |-> 0,
         known |-> [d \in EnabledDeviations |-> 0], knownAt |-> [d \in EnabledDeviations |-> 0],
         same |-> 0, differs |-> 0, nolow |-> 0, differsAt |-> <<>>, malformed |-> <<>>, progs |-> 0, laws |-> 0, cfg |-> ""]
 
-Init == l = 1 /\ env = [i \in 1..NReg |-> Z0] /\ hist = <<>> /\ prog = "" /\ prev = NoPrev /\ st = St0
+Init == l = 1 /\ env = [i \in 1..NReg |-> Z0] /\ hist = <<>> /\ prog = NoProg /\ prev = NoPrev /\ st = St0
 
 Line == TraceLog[l]
 IsKind(k) == l <= NL /\ Line.k = k
@@ -72,23 +73,23 @@ TraceCall ==
             ELSE /\ st' = [Account(st, v, RelAll(Prop, prev, e), fid) EXCEPT !.calls = @ + 1]
                  /\ IF inprog
                     THEN /\ env' = IF j.d > 0 THEN [env EXCEPT ![j.d] = e.o] ELSE env
-                         /\ hist' = Append(hist, <<e.op, j.d, j.s>>)
+                         /\ hist' = Append(hist, [op |-> e.op, t |-> e.t, d |-> j.d, s |-> j.s, a |-> e.a, o |-> e.o])
                     ELSE UNCHANGED <<env, hist>>
    /\ UNCHANGED prog
 
 TraceBegin ==
    /\ IsKind("begin")
-   /\ l' = l + 1 /\ prog' = Line.prog /\ env' = [i \in 1..NReg |-> Z0] /\ hist' = <<>>
+   /\ l' = l + 1 /\ prog' = Line /\ env' = [i \in 1..NReg |-> Z0] /\ hist' = <<>>
    /\ st' = [st EXCEPT !.progs = @ + 1] /\ UNCHANGED prev
 
 (* end of a program: the law it was generated for is judged on the final register file *)
 TraceEnd ==
    /\ IsKind("end")
-   /\ l' = l + 1 /\ prog' = "" /\ UNCHANGED <<env, hist, prev>>
+   /\ l' = l + 1 /\ prog' = NoProg /\ UNCHANGED <<env, hist, prev>>
    /\ IF LawApplies(Prop, prog)
       THEN IF ~LawShape(prog, hist)
            THEN st' = [st EXCEPT !.malformed = Listed(@, l)]
-           ELSE st' = [Account(st, JudgeLaw(Prop, prog, env), TRUE, "nolow") EXCEPT !.laws = @ + 1]
+           ELSE st' = [Account(st, JudgeLaw(Prop, prog, env, hist), LawRelevant(prog, env, hist), "nolow") EXCEPT !.laws = @ + 1]
       ELSE UNCHANGED st
 
 TraceEof ==
